@@ -345,6 +345,62 @@ def f5(run, project, L):
                    f"on the path [{label}] the whole packet `{norm(y)}` is yielded although its size field may announce fewer bytes "
                    f"(trimming statement changed; size conditions: {[a_ for _i, a_ in size_atoms]})", module=mod, node=yn, func=fn.name,
                    construct="pcapng trimming")
+    # every packet of the capture is visited: no step of the packet loop leaves it
+    for bp in body.values():
+        if bp.end in ("break", "return"):
+            label = " & ".join(("" if v else "not ") + a_ for a_, v, _ in bp.cond if not a_.startswith(("try@", "loop@"))) or "always"
+            run.ob("F5", False, f"pcapng [{label}]: the packet loop goes on", f"on the step [{label}] the packet loop is left ({bp.end}): "
+                   "the packets after this one are not decoded", module=mod, node=bp.node or fn, func=fn.name, construct="pcapng packet loop exit")
+    # the payload is this packet's: the yielded name is (transitively) computed from the loop's packet item
+    item = {n_.id for n_ in ast.walk(outer[0].target) if isinstance(n_, ast.Name)}
+    closure, grew = set(), True
+    for b_ in bases:
+        closure |= {n_.id for n_ in ast.walk(ast.parse(b_, mode="eval")) if isinstance(n_, ast.Name)}
+    defs = [a_ for a_ in ast.walk(outer[0]) if isinstance(a_, ast.Assign) and len(a_.targets) == 1 and isinstance(a_.targets[0], ast.Name)]
+    inner_targets = {n_.id: lp_.iter for lp_ in ast.walk(outer[0]) if isinstance(lp_, ast.For) and lp_ is not outer[0]
+                     for n_ in ast.walk(lp_.target) if isinstance(n_, ast.Name)}
+    while grew:
+        grew = False
+        for a_ in defs:
+            if a_.targets[0].id in closure:
+                new_ = {n_.id for n_ in ast.walk(a_.value) if isinstance(n_, ast.Name)} - closure
+                if new_:
+                    closure |= new_
+                    grew = True
+    run.ob("F5", bool(item & closure), "pcapng: the payload is computed from the packet at hand",
+           f"the yielded payload ({sorted(bases)}) is not computed from the loop's packet item ({sorted(item)}) in this iteration: "
+           "it is undefined or left over from an earlier packet", module=mod, node=outer[0], func=fn.name, construct="pcapng payload source")
+    # the descent `.data` ... until bytes: the loop that unwraps the parsed packet stops exactly at a bytes payload
+    n_unwrap = 0
+    tops = {paths.text(e) for t_ in S.paths() for k, e, n_ in t_.effects if k == "loop" and n_ is outer[0]}
+    fparam = fn.args.args[0].arg
+    run.ob("F5", tops == {f"dpkt.pcapng.Reader({fparam})"}, "pcapng: the packets come from dpkt's pcapng reader over the given file",
+           f"the packet loop runs over {sorted(tops)}", module=mod, node=outer[0], func=fn.name, construct="pcapng reader")
+    for lp_ in [w_ for w_ in ast.walk(outer[0]) if isinstance(w_, ast.While)]:
+        subs = [sp for bp in body.values() for sp in bp.loops.get(id(lp_), [])]
+        isb = {a_ for sp in subs for a_, _v, _ in sp.cond if a_.startswith("isinstance(") and a_.endswith(", bytes)")}
+        if not subs or len(isb) != 1:
+            continue
+        atom = isb.pop()
+        var = atom[len("isinstance("):-len(", bytes)")]
+        seen = set()
+        for sp in subs:
+            t_ = sp.truth(atom)
+            key = (t_, sp.end)
+            if key in seen:
+                continue
+            seen.add(key)
+            stay = sp.end in ("fall", "continue")
+            unwrap = [paths.text(e_.value) for k_, e_, _n in sp.effects if k_ in ("bind", "store") and isinstance(e_, ast.Assign) and norm(e_.targets[0]) == var]
+            stepok = unwrap == [f"{var}.data"] or (sp.env.get(var) is not None and paths.text(sp.env[var]) == f"{var}.data")
+            ok = (t_ is True and not stay) or (t_ is False and stay and stepok)
+            n_unwrap += 1
+            run.ob("F5", ok, f"pcapng: unwrapping {'stops at' if t_ else 'continues below'} {'a bytes payload' if t_ else 'a parsed layer'}",
+                   f"the loop that unwraps the parsed packet {'goes on' if stay else 'stops'} when `{atom}` is {t_}"
+                   + ("" if not stay or stepok else f" without stepping to `{var}.data`") + ": the payload handed on is not the innermost bytes",
+                   module=mod, node=sp.node or lp_, func=fn.name, construct="pcapng unwrap loop")
+    run.require(n_unwrap >= 2, "F5: the loop that unwraps the parsed packet down to its bytes payload (`while not isinstance(p, bytes): "
+                "p = p.data`) was not found")
     run.ob("F5", n_yield >= 1 and len(bases) == 1, "exactly the (trimmed) payload is yielded per packet",
            f"yield of the packet payload changed: bases {sorted(bases)}", module=mod, node=fn, func=fn.name, construct="pcapng yield")
     bf = mod.function("bytes_from_pcap_file")
@@ -799,6 +855,29 @@ def f9(run, project):
                f"on the path [{label(p)}] the detector gives {got}; required: {' or '.join(sorted(want))} (announcement, then the two "
                "look-ahead bytes, then the rest of the input)", module=am, node=p.node or det, func=det.name, construct="auto decision")
     run.require(n >= 5, f"F9: only {n} detector paths")
+    # hex is only announced in the lenient mode: that is the mode auto decoding runs in unless the caller asks otherwise
+    mf = am.function("marshal")
+    mpar = [a.arg for a in mf.args.args]
+    mdef = dict(zip(mpar[len(mpar) - len(mf.args.defaults):], mf.args.defaults))
+    mdef.update({a.arg: d for a, d in zip(mf.args.kwonlyargs, mf.args.kw_defaults) if d is not None})
+    dcalls = [c for c in walk_no_nested(mf) if isinstance(c, ast.Call) and call_name(c) == det.name]
+    dpar = [a.arg for a in det.args.args]
+    sname = S_[len("truthy "):]
+    for c in dcalls:
+        arg = kwarg(c, sname) or (c.args[dpar.index(sname)] if sname in dpar and dpar.index(sname) < len(c.args) else None)
+        if arg is None:
+            dd = dict(zip(dpar[len(dpar) - len(det.args.defaults):], det.args.defaults)).get(sname)
+            val = dd.value if isinstance(dd, ast.Constant) else "?"
+        elif isinstance(arg, ast.Constant):
+            val = arg.value
+        elif isinstance(arg, ast.Name) and arg.id in mdef and isinstance(mdef[arg.id], ast.Constant):
+            val = mdef[arg.id].value
+        else:
+            val = "?"
+        run.ob("F9", val != "?" and not val, "auto decoding detects leniently by default (hex text is accepted as hex)",
+               f"`{norm(c)[:80]}`: by default the detector runs with {sname}={val!r}: every hex text is refused as ambiguous instead of "
+               "being decoded like the bytes it carries", module=am, node=c, func=mf.name, construct="auto default strictness")
+    run.require(len(dcalls) == 1, f"F9: auto.marshal calls the detector {len(dcalls)} times")
 
 
 def _ancestors(node, stop):
